@@ -196,12 +196,16 @@ class SymInt:
         if isinstance(o, (SymFloat, SymComplex)):
             return NotImplemented
         r = s._cmp(o, lambda a, b: a == b, "eq")
+        if r is NotImplemented and getattr(o, "__sym_reflect__", False):
+            return NotImplemented          # like int: let the other operand's reflected __eq__ decide
         return False if r is NotImplemented else r
 
     def __ne__(s, o):
         if isinstance(o, (SymFloat, SymComplex)):
             return NotImplemented
         r = s._cmp(o, lambda a, b: a != b, "ne")
+        if r is NotImplemented and getattr(o, "__sym_reflect__", False):
+            return NotImplemented
         return True if r is NotImplemented else r
 
     def __bool__(s):
